@@ -174,9 +174,9 @@ def checker_factory(modname):
             except Unsupported as u:
                 sw.undecided.append(dict(n=n, why='%s: outside the subset: %s' % (gname, u)))
                 continue
-            if status != 'ok':
+            partial = status != 'ok'
+            if partial:
                 sw.undecided.append(dict(n=n, why='%s: closure budget' % gname))
-                continue
             ok = True
             for ctx, r in paths:
                 extra_cond = None
@@ -230,7 +230,8 @@ def checker_factory(modname):
                 ok = False
                 sw.finding('getter misbehaves', '%s: %s' % (gname, what.split(' (')[0]), input=x, opts=opts, getter=gname, today=today,
                            approx=ctx.approx or bool(getattr(ctx, 'soft', None)), real=d, reproduced=d is not None)
-            sw.obligations.append((oid, ('undecided' if getattr(sw, 'unknowns', 0) > u0 else 'proved') if ok else 'refuted', '%d paths' % len(paths)))
+            if not (partial and ok):
+                sw.obligations.append((oid, ('undecided' if getattr(sw, 'unknowns', 0) > u0 else 'proved') if ok else 'refuted', '%d paths' % len(paths)))
         if gs and not sw.samples:
             sw.samples.append(dict(n=n, getters=[g for g, _ in gs]))
     return checker, gs
